@@ -462,5 +462,119 @@ theorem loopFuel_emit (pr : K → Tok K) (nd : ℕ) (step : Lines K → Except E
     simp only [Lammps.Spec.emit, List.flatMap_cons] at h1 h2 ⊢
     simp [Impl.loopFuel, h1, h2]
 
+/-! ### LAMMPS log -/
+
+theorem indicesFrom_append (p : Line K → Bool) (k : ℕ) (a b : Lines K) :
+    Impl.indicesFrom p k (a ++ b) = Impl.indicesFrom p k a ++ Impl.indicesFrom p (k + a.length) b := by
+  induction a generalizing k with
+  | nil => simp [Impl.indicesFrom]
+  | cons l a ih =>
+    simp only [List.cons_append, Impl.indicesFrom, List.length_cons]
+    rw [ih (k + 1), show k + 1 + a.length = k + (a.length + 1) by omega]
+    split <;> simp
+
+theorem indicesFrom_none (p : Line K → Bool) (k : ℕ) (a : Lines K) (h : ∀ l ∈ a, p l = false) :
+    Impl.indicesFrom p k a = [] := by
+  induction a generalizing k with
+  | nil => rfl
+  | cons l a ih =>
+    simp [Impl.indicesFrom, h l (by simp), ih (k + 1) (fun x hx => h x (by simp [hx]))]
+
+/-- positions of the header lines / terminator lines of consecutive sections starting at line `k` -/
+def starts : ℕ → List (Spec.Section K) → List ℕ
+  | _, [] => []
+  | k, s :: ss => k :: starts (k + (Spec.sectionLines s).length) ss
+def ends : ℕ → List (Spec.Section K) → List ℕ
+  | _, [] => []
+  | k, s :: ss => (k + 1 + s.rows.length) :: ends (k + (Spec.sectionLines s).length) ss
+
+theorem starts_length (k : ℕ) (ss : List (Spec.Section K)) : (starts k ss).length = ss.length := by
+  induction ss generalizing k with
+  | nil => rfl
+  | cons s ss ih => simp [starts, ih]
+theorem ends_length (k : ℕ) (ss : List (Spec.Section K)) : (ends k ss).length = ss.length := by
+  induction ss generalizing k with
+  | nil => rfl
+  | cons s ss ih => simp [ends, ih]
+
+theorem indices_section (s : Spec.Section K) (hwf : Spec.SectionWF s) (k : ℕ) :
+    Impl.indicesFrom Impl.isStep k (Spec.sectionLines s) = [k] ∧
+    Impl.indicesFrom Impl.isLoop k (Spec.sectionLines s) = [k + 1 + s.rows.length] := by
+  unfold Spec.sectionLines
+  constructor
+  · simp only [Impl.indicesFrom, hwf.header.1, if_true]
+    rw [indicesFrom_append, indicesFrom_none _ _ _ (fun l hl => (hwf.rows l hl).1)]
+    simp only [Impl.indicesFrom, hwf.loop.2]
+    rw [indicesFrom_none _ _ _ (fun l hl => (hwf.noise l hl).1)]
+    simp
+  · simp only [Impl.indicesFrom, hwf.header.2]
+    rw [indicesFrom_append, indicesFrom_none _ _ _ (fun l hl => (hwf.rows l hl).2)]
+    simp only [Impl.indicesFrom, hwf.loop.1, if_true]
+    rw [indicesFrom_none _ _ _ (fun l hl => (hwf.noise l hl).2)]
+    simp
+
+theorem indices_sections (ss : List (Spec.Section K)) (hwf : ∀ s ∈ ss, Spec.SectionWF s) (k : ℕ) :
+    Impl.indicesFrom Impl.isStep k (ss.flatMap Spec.sectionLines) = starts k ss ∧
+    Impl.indicesFrom Impl.isLoop k (ss.flatMap Spec.sectionLines) = ends k ss := by
+  induction ss generalizing k with
+  | nil => exact ⟨rfl, rfl⟩
+  | cons s ss ih =>
+    have h1 := indices_section s (hwf s (by simp)) k
+    have h2 := ih (fun x hx => hwf x (by simp [hx])) (k + (Spec.sectionLines s).length)
+    simp only [List.flatMap_cons, indicesFrom_append, h1.1, h1.2, h2.1, h2.2, starts, ends]
+    exact ⟨rfl, rfl⟩
+
+theorem tablesOf_sections (P T : Lines K) (ss : List (Spec.Section K)) :
+    Impl.tablesOf (P ++ ss.flatMap Spec.sectionLines ++ T)
+        (((starts P.length ss).zip ((ends P.length ss).map fun (i : ℕ) => (i : ℤ))).map fun p => (some p.1, p.2, p.1))
+      = .ok (ss.map fun s => ⟨s.header, s.rows⟩) := by
+  induction ss generalizing P with
+  | nil => rfl
+  | cons s ss ih =>
+    have ih' := ih (P ++ Spec.sectionLines s)
+    simp only [List.length_append] at ih'
+    simp only [starts, ends, List.map_cons, List.zip_cons_cons, Impl.tablesOf, List.flatMap_cons]
+    have hn : ¬ (((P.length + 1 + s.rows.length : ℕ) : ℤ) - (P.length : ℤ) - 1 < 0) := by omega
+    rw [if_neg hn]
+    have e : P ++ (Spec.sectionLines s ++ ss.flatMap Spec.sectionLines) ++ T
+        = (P ++ Spec.sectionLines s) ++ ss.flatMap Spec.sectionLines ++ T := by simp
+    rw [e, ih']
+    simp only [ok_bind]
+    have hr : (((P.length + 1 + s.rows.length : ℕ) : ℤ) - (P.length : ℤ) - 1).toNat = s.rows.length := by omega
+    rw [hr]
+    congr 2
+    unfold Impl.readCsv
+    have hd : List.drop P.length ((P ++ Spec.sectionLines s) ++ ss.flatMap Spec.sectionLines ++ T)
+        = s.header :: (s.rows ++ (s.loop :: s.noise ++ (ss.flatMap Spec.sectionLines ++ T))) := by
+      simp [Spec.sectionLines]
+    rw [hd]
+    simp
+
+/-- the log reader on a log made of complete sections -/
+theorem readLog_emit (pre : Lines K) (ss : List (Spec.Section K)) (hwf : ∀ s ∈ ss, Spec.SectionWF s)
+    (hpre : ∀ l ∈ pre, Spec.plain l) (last : Line K) (hlast : (Spec.emitLog pre ss).getLast? = some last)
+    (hnum : last.isEmpty = true ∨ Impl.firstNumeric last = false) :
+    Impl.readLog (Spec.emitLog pre ss) = .ok (ss.map fun s => ⟨s.header, s.rows⟩) := by
+  unfold Impl.readLog
+  rw [hlast]
+  have hc : (!last.isEmpty && Impl.firstNumeric last) = false := by
+    rcases hnum with h | h <;> simp [h]
+  simp only [hc, Bool.false_eq_true, if_false]
+  have hi := indices_sections ss hwf pre.length
+  have hs : Impl.indicesFrom Impl.isStep 0 (Spec.emitLog pre ss) = starts pre.length ss := by
+    unfold Spec.emitLog
+    rw [indicesFrom_append, indicesFrom_none _ _ _ (fun l hl => (hpre l hl).1)]
+    simpa using hi.1
+  have he : Impl.indicesFrom Impl.isLoop 0 (Spec.emitLog pre ss) = ends pre.length ss := by
+    unfold Spec.emitLog
+    rw [indicesFrom_append, indicesFrom_none _ _ _ (fun l hl => (hpre l hl).2)]
+    simpa using hi.2
+  rw [hs, he]
+  unfold Impl.pairsOf
+  rw [if_pos (by simp [starts_length, ends_length])]
+  simp only [ok_bind]
+  have := tablesOf_sections pre [] ss
+  simpa [Spec.emitLog] using this
+
 end field
 end Pms.AuxIo
